@@ -58,6 +58,25 @@ def step (line : String) : String :=
         let vals := String.intercalate "," ((readAll st' r.record).map showRat)
         s!"ok record={b01 (sharesMemory r.record o.record)} variables={b01 (r.variables = o.variables)} infotop={b01 (r.infoTop = o.infoTop)} nested={b01 (r.infoNested.any (· ∈ o.infoNested))} rows={if vals = "" then "-" else vals}"
     | _, _, _ => "bad-op"
+  | ["concatin", nfirst, spec] => match nfirst.toNat? with
+    | some nf =>
+      -- inputs: `<rows>:<vartype differs>:<label order differs>` separated by `;`
+      let st0 : St := { mem := fun _ _ => 0, next := 0 }
+      let (st1, first) := alloc st0 ((List.range nf).map fun (i : Nat) => ((i : Int) : Rat))
+      let step2 := fun (acc : St × List (Arr × (Rat → Rat) × Bool × Bool) × Nat) (t : String) =>
+        match t.splitOn ":" with
+        | [n, v, o] =>
+          let (s, a) := alloc acc.1 ((List.range (n.toNat?.getD 0)).map fun (i : Nat) => (((100 * (acc.2.2 + 1) + i : Nat) : Int) : Rat))
+          let f : Rat → Rat := fun x => 2 * x - 1
+          (s, acc.2.1 ++ [(a, f, decide (v = "1"), decide (o = "1"))], acc.2.2 + 1)
+        | _ => acc
+      let (st2, others, _) := (splitOr ";" spec).foldl step2 (st1, [], 0)
+      let (st3, res) := concatInputs st2 first others
+      let inputs := first :: others.map (·.1)
+      let unchanged := inputs.all fun a => readAll st3 a == readAll st2 a
+      let shared := inputs.any fun a => sharesMemory res a
+      s!"ok shared={b01 shared} inputs_unchanged={b01 unchanged} rows={res.len}"
+    | none => "bad-op"
   | "model" :: rest => match parseMOp? rest with
     | some op =>
       let o : MObj := { data := 0, variables := 1 }
